@@ -5,6 +5,7 @@ go 1.20
 require (
 	github.com/anishathalye/porcupine v1.3.0
 	github.com/go-kid/ioc v0.0.0
+	gopkg.in/yaml.v3 v3.0.1
 )
 
 require (
@@ -35,7 +36,6 @@ require (
 	golang.org/x/sys v0.18.0 // indirect
 	golang.org/x/text v0.16.0 // indirect
 	gopkg.in/ini.v1 v1.67.0 // indirect
-	gopkg.in/yaml.v3 v3.0.1 // indirect
 )
 
 replace github.com/go-kid/ioc => /repo
